@@ -429,9 +429,9 @@ def run(ck, replay):
             return
         ml = vlib.run_model("\n".join(lines) + "\n")
         if not quick:
-            k = min(200, len(lines))
-            vm = vlib.run_model_vm("\n".join(lines[:k]) + "\n")
-            ck.add_obligation(vm == ml[:k], "extracted model agrees with vm_compute on %d codec cases" % k)
+            pick = [i for i in range(len(lines)) if len(lines[i]) < 900][:150]   # a Coq string literal of <= ~100 kB
+            vm = vlib.run_model_vm("\n".join(lines[i] for i in pick) + "\n")
+            ck.add_obligation(vm == [ml[i] for i in pick], "extracted model agrees with vm_compute on %d codec cases" % len(pick))
         dec_cases = []
         for i, (c, m) in enumerate(msgs):
             evals += 1
